@@ -293,15 +293,7 @@ def parseRFiltSpec : List String → Option RFiltSpec
   | ["lochas", q] => q.toNat?.map .locHas
   | _ => none
 
-def parseFilterKind (s : String) : Option FilterKind :=
-  let fn : String → Option FilterFn
-    | "ops" => some .ops | "multi" => some .multi | "many" => some .many | _ => none
-  match s.splitOn ":" with
-  | ["always"] => some .always
-  | ["plain", f] => (fn f).map .plain
-  | ["respecting", f] => (fn f).map .respecting
-  | ["fully", f] => (fn f).map .respectingFully
-  | _ => none
+def parseFilterKind (s : String) : Option FilterKind := FilterKind.ofString s
 
 /-! ## trees -/
 partial def parsePred : SE → Option Pred
